@@ -231,7 +231,6 @@ def filtered_emitter_cases(res):
             time.sleep(0.1)
             os.rename(os.path.join(w, "d"), os.path.join(w, "e"))          # renamed inside the tree
             os.rename(os.path.join(o, "x"), os.path.join(w, "y"))          # arrives from outside
-            time.sleep(0.9)
             res.count()
             res.bump("filtered_emitter_runs")
             if want_cls[0].startswith("File"):
@@ -239,8 +238,16 @@ def filtered_emitter_cases(res):
                         ("FileCreatedEvent", "W/y/a", ""), ("FileCreatedEvent", "W/y/dd/b", "")}
             else:
                 need = {("DirMovedEvent", "W/d/dd", "W/e/dd"), ("DirCreatedEvent", "W/y/dd", "")}
-            have = {(c, s_, d_) for c, s_, d_, syn in got if syn}
-            missing = need - have
+            # give the emitter time (a fixed pause is not enough on a loaded machine): until everything required has
+            # arrived, at most 10 s, and at least the pairing delay
+            time.sleep(0.9)
+            deadline = time.monotonic() + 10
+            while True:
+                have = {(c, s_, d_) for c, s_, d_, syn in list(got) if syn}
+                missing = need - have
+                if not missing or time.monotonic() > deadline:
+                    break
+                time.sleep(0.05)
             if missing:
                 return (f"under the event filter {[c.__name__ for c in flt]} the synthetic events of a renamed / arrived directory "
                         f"lack {sorted(missing)} (one event per descendant of the accepted flavour is required)",
